@@ -41,7 +41,7 @@ class Q:
 def build(r):
     q = Q()
     q.model_project = r.choice(['mindsdb', 'proj'])
-    q.model_name = 'm1' if q.model_project == 'mindsdb' else 'm2'
+    q.model_name = r.choice(['m1', 'm1', '7days']) if q.model_project == 'mindsdb' else r.choice(['m2', 'm2', '2024_churn'])
     q.version = r.choice([None, None, '3'])
     mref = f'{q.model_project}.{q.model_name}' + (f'.{q.version}' if q.version else '')
     t = r.choice(['t1', 't2'])
